@@ -59,7 +59,9 @@ CoordShapes(kt) == IF kt = "ed" THEN {"any"}
                    ELSE {"normal", "x_leading_zero", "y_leading_zero"}
                           \cup (IF kt \in {"k1", "p256"} THEN {"x_two_leading_zeros", "both_leading_zero"} ELSE {})
 \* x_short_shadowed: the x member is too short and a member "X" (another letter case: another member) holds the right one
-JwkMods == {"none", "off_curve", "x_short", "x_long", "y_short", "y_long", "x_empty", "wrong_crv_name", "x_not_base64", "x_short_shadowed"}
+\* (x_plus_p: the x coordinate plus the field prime, where that still fits the width - the same residue, not a field element)
+JwkMods == {"none", "off_curve", "x_short", "x_long", "y_short", "y_long", "x_empty", "wrong_crv_name", "x_not_base64", "x_short_shadowed",
+            "x_plus_p"}
 ModApplies(kt, m) == kt # "ed" \/ m \in {"none", "x_short", "x_long", "x_empty", "x_not_base64", "x_short_shadowed"}
 
 JwkCases == {[kind |-> "jwk", kt |-> kt, shape |-> sh, mod |-> m] : kt \in KeyTypes,
